@@ -36,6 +36,7 @@ var NilSlice = Term{"(mk-slice 0 0 0 0)", SSlice}
 var NilIface = Term{"(mk-iface 0 0)", SIface}
 
 func typeKey(t types.Type) string {
+	t = types.Unalias(t)
 	return types.TypeString(t, func(p *types.Package) string { return p.Path() })
 }
 
@@ -61,6 +62,7 @@ func isPointerLike(t types.Type) bool {
 
 // SortOf returns the SMT sort for a Go type.
 func (tm *TypeMap) SortOf(t types.Type) string {
+	t = types.Unalias(t) // aliases (protocol.MetadataTopic = kmsg....) denote the same type: one sort
 	if s, ok := tm.byType[t]; ok {
 		return s
 	}
